@@ -16,7 +16,8 @@
     _handle_add_fields_stage ($addFields, $set)  1541-1559
     _handle_replace_root_stage                   1486-1501  (the function is named in the file)
     _handle_facet_stage                          1593-1598
-    Collection.aggregate                         collection.py:1826-1828
+    Collection.aggregate                         collection.py (normalises the pipeline's datetimes,
+                                                 reads the input with find(), runs process_pipeline)
 
   A pipeline is a raw `Val` list of stage dicts exactly as the Python code sees it; the documents
   flowing through are `List Val`.  The database is the list of its collections' contents (what
@@ -118,16 +119,19 @@ def sortStage : Val → List Val → R (List Val)
 
 /-! ### `$skip`, `$limit`: `_handle_skip_stage`, `_handle_limit_stage` -/
 
-/-- `isinstance(options, bool) or not isinstance(options, int)` → OperationFailure; a negative
+/-- a double that holds a whole number is read as that integer (`stageCount`); then
+    `isinstance(options, bool) or not isinstance(options, int)` → OperationFailure; a negative
     count → OperationFailure; else `in_collection[options:]` -/
-def skipStage : Val → List Val → R (List Val)
-  | .int n, docs => if n < 0 then .error .opFail else .ok (docs.drop n.toNat)
-  | _, _ => .error .opFail
+def skipStage (o : Val) (docs : List Val) : R (List Val) :=
+  match stageCount o with
+  | some n => if n < 0 then .error .opFail else .ok (docs.drop n.toNat)
+  | none => .error .opFail
 
 /-- … `options <= 0` → OperationFailure ('the limit must be positive'); else `in_collection[:options]` -/
-def limitStage : Val → List Val → R (List Val)
-  | .int n, docs => if n ≤ 0 then .error .opFail else .ok (docs.take n.toNat)
-  | _, _ => .error .opFail
+def limitStage (o : Val) (docs : List Val) : R (List Val) :=
+  match stageCount o with
+  | some n => if n ≤ 0 then .error .opFail else .ok (docs.take n.toNat)
+  | none => .error .opFail
 
 /-! ### `$count` (aggregate.py:1583-1590) -/
 
@@ -857,10 +861,16 @@ mutual
   termination_by structural x _ => x
 end
 
-/-- `list(collection.aggregate(pipeline))` for a pipeline given as a value -/
+/-- `pipeline = helpers.patch_datetime_awareness_in_document(pipeline)` in `Collection.aggregate`
+    (a client with `tz_aware=False`; `MongoModel.aggPipeline false`): every datetime written in
+    the pipeline reaches the stages as UTC milliseconds, naive — like the stored ones -/
+def normPipeline (stages : List Val) : List Val := patchList stages
+
+/-- `list(collection.aggregate(pipeline))` for a pipeline given as a value: the pipeline is
+    normalised, the input is `find()`, then `process_pipeline` -/
 def aggregate (db : Db) (coll : String) (pipeline : Val) : R (List Val) :=
   match pipeline with
-  | .arr stages => runPipeline db stages (db.get coll)
+  | .arr stages => runPipeline db (normPipeline stages) (db.get coll)
   | _ => unmodelled
 
 /-! ### scope: where in-place mutation could be observed through a second reference -/
@@ -878,32 +888,33 @@ def sharingStages : List String :=
   ["$addFields", "$set", "$project", "$group", "$bucket", "$replaceRoot", "$facet"]
 
 mutual
-  /-- `shared`: a stage that may create internal sharing ran before (or we are inside a `$facet`
-      whose siblings see the same objects: `inFacet`).  Returns (risk found, shared afterwards). -/
-  def riskPipeline (shared inFacet : Bool) : List Val → Bool × Bool
+  /-- `shared`: a stage that may create internal sharing ran before.  Returns (risk found,
+      shared afterwards).  (Every `$facet` branch works on its own deep copy of the input — a
+      copy that keeps the sharing inside the input —, so being inside a branch adds no risk.) -/
+  def riskPipeline (shared : Bool) : List Val → Bool × Bool
     | [] => (false, shared)
     | st :: rest =>
-      let r := riskStage shared inFacet st
-      let r' := riskPipeline r.2 inFacet rest
+      let r := riskStage shared st
+      let r' := riskPipeline r.2 rest
       (r.1 || r'.1, r'.2)
   termination_by structural x => x
 
-  def riskStage (shared inFacet : Bool) : Val → Bool × Bool
-    | .doc fs => riskOps shared inFacet fs
+  def riskStage (shared : Bool) : Val → Bool × Bool
+    | .doc fs => riskOps shared fs
     | _ => (false, shared)
   termination_by structural x => x
 
-  def riskOps (shared inFacet : Bool) : Fields → Bool × Bool
+  def riskOps (shared : Bool) : Fields → Bool × Bool
     | [] => (false, shared)
     | (op, opts) :: rest =>
       let here : Bool :=
-        -- (`$addFields` / `$set` with a dotted name copy each level before writing: no risk)
-        -- `$unwind` stores the ORIGINAL item under the path of the deep copy; a dotted
-        -- `includeArrayIndex` below it then writes into the input document's own sub-document
-        (op = "$unwind" && unwindDotted opts && (shared || inFacet)) ||
-        (op = "$lookup" && inFacet)
+        -- (`$addFields` / `$set` with a dotted name copy each level before writing, `$lookup`
+        -- writes a top-level key of a document nobody else holds: no risk)
+        -- `$unwind` writes the item (dotted path) and the index (dotted `includeArrayIndex`)
+        -- into sub-documents of a deep copy, which keeps the sharing inside the document
+        (op = "$unwind" && unwindDotted opts && shared)
       let sub : Bool := if op = "$facet" then riskFacet shared opts else false
-      let r' := riskOps (shared || sharingStages.contains op) inFacet rest
+      let r' := riskOps (shared || sharingStages.contains op) rest
       (here || sub || r'.1, r'.2)
   termination_by structural x => x
 
@@ -912,18 +923,16 @@ mutual
     | _ => false
   termination_by structural x => x
 
-  /-- every branch but the last must not mutate what its siblings will read; for simplicity
-      every branch of a facet with at least two branches is checked with `inFacet` -/
   def riskBranches (shared : Bool) : Fields → Bool
     | [] => false
-    | (_, .arr p) :: rest => (riskPipeline shared true p).1 || riskBranches shared rest
+    | (_, .arr p) :: rest => (riskPipeline shared p).1 || riskBranches shared rest
     | _ :: rest => riskBranches shared rest
   termination_by structural x => x
 end
 
 /-- the pipeline may observe an in-place write through a second reference: outside the value
     model (scope limit, see the header) -/
-def aliasRisk (pipeline : List Val) : Bool := (riskPipeline false false pipeline).1
+def aliasRisk (pipeline : List Val) : Bool := (riskPipeline false pipeline).1
 
 /-- a `$project` that returns `None` followed by further stages: which error surfaces depends
     on the next handler — outside the model -/
